@@ -141,6 +141,10 @@ pub trait Property {
     fn risky() -> bool {
         false
     }
+    /// bound on shrink iterations (expensive cases want fewer)
+    fn max_shrink_iters() -> u32 {
+        4096
+    }
 }
 
 // ---------------------------------------------------------------------------
@@ -506,7 +510,7 @@ pub fn run_worker<P: Property>(args: WorkerArgs) {
         let cfg = Config {
             cases: remaining.min(u32::MAX as u64) as u32,
             failure_persistence: None,
-            max_shrink_iters: 4096,
+            max_shrink_iters: P::max_shrink_iters(),
             max_local_rejects: 1_000_000,
             max_global_rejects: 1_000_000,
             ..Config::default()
